@@ -325,7 +325,31 @@ string run_replay(const string &text) {
 }
 } // namespace
 
+#ifdef VERIF_FUZZ
+#include <fuzzer/FuzzedDataProvider.h>
+
+extern "C" int LLVMFuzzerInitialize(int *, char ***) { p_libsys_init(); vl::fuzz_init(); return 0; }
+extern "C" int LLVMFuzzerTestOneInput(const uint8_t *data, size_t size) {
+  FuzzedDataProvider fdp(data, size);
+  Case c; c.which = fdp.ConsumeIntegralInRange<int>(0, 1);
+  while (fdp.remaining_bytes() > 0 && c.ops.size() < 500) {
+    Op o;
+    static const char hk[] = {'i', 'i', 'i', 'r', 'r', 'l', 'k', 'v', 'b', 'F'}; static const char lk[] = {'a', 'a', 'p', 'r', 'r', 'v', 't', 'n', 'e', 'F'};
+    o.kind = (c.which ? lk : hk)[fdp.ConsumeIntegralInRange<int>(0, 9)];
+    o.a.cls = fdp.ConsumeIntegralInRange<int>(0, 9); o.a.idx = fdp.ConsumeIntegralInRange<int>(0, 50);
+    o.b.cls = fdp.ConsumeIntegralInRange<int>(0, 9); o.b.idx = fdp.ConsumeIntegralInRange<int>(0, 50); o.c = fdp.ConsumeIntegralInRange<int>(0, 2);
+    c.ops.push_back(o);
+  }
+  std::string text = to_text(c);
+  vl::set_current_case("fuzz", text);
+  Outcome o = run_case(c);
+  vl::stats().record(text, o.nontrivial, o.fp);
+  if (!o.verdict.empty()) vl::fuzz_report("fuzz", text, "C15:" + o.klass + ": " + o.verdict, o.klass);
+  return 0;
+}
+#else
 int main(int argc, char **argv) {
   p_libsys_init();
   return vl::harness_main(argc, argv, run_generated, run_replay);
 }
+#endif
